@@ -13,12 +13,14 @@ TEMPLATE = ("{year}{month}{day}_{hour}{minute}{second}-"
             "{end_second}.dat")
 
 # (start hour, end hour) relative to T0
-POOL_A = [(0, 2), (2, 4), (3, 6), (0, 8), (5, 5), (7, 8)]
-POOL_B = [(0, 1), (1, 3), (4, 4), (2, 7), (0, 8), (6, 8)]
+POOL_A = [(0, 2), (2, 4), (3, 6), (0, 8), (5, 5), (7, 8), (30, 31)]
+POOL_B = [(0, 1), (1, 3), (4, 4), (2, 7), (0, 8), (6, 8), (-40, -39)]
 PERIODS = [(None, None), (0, 8), (0, 9), (-2, 0), (2, 3), (4, 4.5), (6, 7),
-           (8, 12), (9, 12)]
-MAX_INTERVALS = [None, 0, 3600, "90 min"]
-MI_SECONDS = {None: 0, 0: 0, 3600: 3600, "90 min": 5400}
+           (8, 12), (9, 12), (-48, 48)]
+# incl. intervals of a day and more (timedelta.seconds vs total_seconds)
+MAX_INTERVALS = [None, 0, 3600, "90 min", "1 day", 90000, "49 h"]
+MI_SECONDS = {None: 0, 0: 0, 3600: 3600, "90 min": 5400, "1 day": 86400,
+              90000: 90000, "49 h": 176400}
 
 
 def populations(pool, maxsize):
